@@ -914,6 +914,63 @@ func ruleE3(c *Ctx) []Ob {
 				}
 			}
 		}
+		// ... and for every container kind: the element walk runs for LIST and for SET, the key and value walks for MAP
+		if k, err := c.kinds(); err == nil {
+			cover := map[string]map[string]bool{"K": {}, "V": {}}
+			for _, b := range fs.Blocks {
+				for _, ins := range b.Instrs {
+					call, ok := ins.(*ssa.Call)
+					if !ok || call.Call.StaticCallee() != fs {
+						continue
+					}
+					which := strings.TrimPrefix(path(call.Call.Args[0]), t+".")
+					if cover[which] == nil {
+						continue
+					}
+					cs, _ := caseSet(b, ".T")
+					if cs == nil {
+						// not under a kind test at all: runs for every kind
+						for _, kn := range []string{"MAP", "LIST", "SET"} {
+							cover[which][kn] = true
+						}
+						for _, cd := range domConds(b) {
+							if l, op, r, ok := relOf(cd.V, cd.Truth, descInt); ok && (op == "==" || op == "!=") && (strings.HasSuffix(l, ".T") || strings.HasSuffix(r, ".T")) {
+								// a kind comparison the case-set reader could not fold: be exact instead of optimistic
+								cover[which] = map[string]bool{}
+								for _, cd2 := range domConds(b) {
+									if l2, op2, r2, ok2 := relOf(cd2.V, cd2.Truth, descInt); ok2 && op2 == "==" {
+										for _, kn := range []string{"MAP", "LIST", "SET"} {
+											if l2 == fmt.Sprint(k.byName[kn]) || r2 == fmt.Sprint(k.byName[kn]) {
+												cover[which][kn] = true
+											}
+										}
+									}
+								}
+								break
+							}
+						}
+						continue
+					}
+					for _, v := range cs {
+						cover[which][k.nameOf(v)] = true
+					}
+				}
+			}
+			var lacks []string
+			if !cover["K"]["MAP"] {
+				lacks = append(lacks, "map keys")
+			}
+			if !cover["V"]["MAP"] {
+				lacks = append(lacks, "map values")
+			}
+			if !cover["V"]["LIST"] {
+				lacks = append(lacks, "list elements")
+			}
+			if !cover["V"]["SET"] {
+				lacks = append(lacks, "set elements")
+			}
+			s.check(len(lacks) == 0, "fetchStructDesc:kinds", c.Pos(fs.Pos()), "the descriptor walk descends for MAP (key and value), LIST and SET", "the descriptor walk does not descend into "+strings.Join(lacks, ", ")+": a struct that occurs only there keeps a nil descriptor and its first use crashes (note: a `case` with an empty body does not fall through in Go)")
+		}
 		s.check(rec[t+".K"] && rec[t+".V"], "fetchStructDesc:recursion", c.Pos(fs.Pos()), "descends into map keys, map values and list/set elements", fmt.Sprintf("fetchStructDesc recurses into %v only: a struct that occurs only as a map key (or element) keeps a nil descriptor and the first use crashes", keysOf(rec)))
 	}
 	if ps := sp.Func("prefetchSubStructDesc"); ps != nil {
